@@ -39,7 +39,8 @@ DeclCol(c) == [name |-> c.name, ty |-> c.type, notnull |-> HasSpec(c, "NotNull")
                nchecks |-> Cardinality({i \in DOMAIN c.specs : c.specs[i].k = "Check"}),
                \* generated column: PRAGMA table_xinfo reports hidden = 2 (virtual) / 3 (stored)
                hidden |-> IF HasSpec(c, "Generated") THEN (IF SpecOf(c, "Generated").stored THEN 3 ELSE 2) ELSE 0]
-Idx(name, unique, origin, partial, cols) == [name |-> name, unique |-> unique, origin |-> origin, partial |-> partial, cols |-> cols]
+\* pcols: the columns the partial predicate mentions (declared next to it: "where_cols")
+Idx(name, unique, origin, partial, cols, pcols) == [name |-> name, unique |-> unique, origin |-> origin, partial |-> partial, cols |-> cols, pcols |-> pcols]
 PlainCols(ns) == [i \in DOMAIN ns |-> [n |-> ns[i], desc |-> FALSE]]
 IdxCols(cs) == [i \in DOMAIN cs |-> [n |-> cs[i].n, desc |-> "o" \in DOMAIN cs[i] /\ cs[i].o = "Desc"]]
 
@@ -82,6 +83,7 @@ Supported13(d) ==
                                         /\ (HasSpec(d.ops[1].col, "Generated") => ~SpecOf(d.ops[1].col, "Generated").stored /\ ~HasSpec(d.ops[1].col, "Default")))
     [] d.stmt \in {"index_create", "index_drop", "table_rename", "table_drop"} ->
          ~(d.stmt = "index_create" /\ "primary" \in DOMAIN d /\ d.primary) /\ ~(d.stmt = "table_drop" /\ Len(d.tables) # 1)
+         /\ ~(d.stmt = "index_drop" /\ "schema" \in DOMAIN d)
     [] OTHER -> FALSE
 
 \* enabled = the engine would accept the declaration in catalogue cat
@@ -97,6 +99,7 @@ Enabled13(cat, d) ==
                    /\ (~\E i \in DOMAIN cat[t].pk : cat[t].pk[i] = n)
                    /\ (~\E i \in DOMAIN cat[t].uniques : \E j \in DOMAIN cat[t].uniques[i] : cat[t].uniques[i][j] = n)
                    /\ (~\E i \in DOMAIN cat[t].indexes : \E j \in DOMAIN cat[t].indexes[i].cols : cat[t].indexes[i].cols[j].n = n)
+                   /\ (~\E i \in DOMAIN cat[t].indexes : \E j \in DOMAIN cat[t].indexes[i].pcols : cat[t].indexes[i].pcols[j] = n)      \* nor in an index predicate
                    /\ (~\E i \in DOMAIN cat[t].fks : \E j \in DOMAIN cat[t].fks[i].from : cat[t].fks[i].from[j] = n)
                    /\ cat[t].nchecks = 0 /\ (\A i \in DOMAIN cat[t].cols : cat[t].cols[i].nchecks = 0))
     [] d.stmt = "index_create" -> LET t == TableIx(cat, d.table) IN t # 0 /\ (\A i \in DOMAIN d.cols : \E j \in DOMAIN cat[t].cols : cat[t].cols[j].name = d.cols[i].n)
@@ -118,14 +121,15 @@ Exec(cat, d) ==
                              cols |-> [i1 \in DOMAIN tb.cols |-> [tb.cols[i1] EXCEPT !.name = Rn(@)]],
                              pk |-> [i2 \in DOMAIN tb.pk |-> Rn(tb.pk[i2])],
                              uniques |-> [i3 \in DOMAIN tb.uniques |-> [j3 \in DOMAIN tb.uniques[i3] |-> Rn(tb.uniques[i3][j3])]],
-                             indexes |-> [i4 \in DOMAIN tb.indexes |-> [tb.indexes[i4] EXCEPT !.cols = [j4 \in DOMAIN tb.indexes[i4].cols |-> [n |-> Rn(tb.indexes[i4].cols[j4].n), desc |-> tb.indexes[i4].cols[j4].desc]]]],
+                             indexes |-> [i4 \in DOMAIN tb.indexes |-> [tb.indexes[i4] EXCEPT !.cols = [j4 \in DOMAIN tb.indexes[i4].cols |-> [n |-> Rn(tb.indexes[i4].cols[j4].n), desc |-> tb.indexes[i4].cols[j4].desc]],
+                                                                                     !.pcols = [j6 \in DOMAIN tb.indexes[i4].pcols |-> Rn(tb.indexes[i4].pcols[j6])]]],
                              fks |-> [i5 \in DOMAIN tb.fks |-> [tb.fks[i5] EXCEPT !.from = [j5 \in DOMAIN tb.fks[i5].from |-> Rn(tb.fks[i5].from[j5])]]]]
                  IN [cat EXCEPT ![t] = tb2]
             [] o.k = "drop_column" -> [cat EXCEPT ![t].cols = SelectSeq(@, LAMBDA c : c.name # o.name)])
     [] d.stmt = "index_create" ->
          LET t == TableIx(cat, d.table) IN
          IF \E k \in DOMAIN cat : \E i \in DOMAIN cat[k].indexes : cat[k].indexes[i].name = d.name THEN cat
-         ELSE [cat EXCEPT ![t].indexes = Append(@, Idx(d.name, "unique" \in DOMAIN d /\ d.unique, "c", "where" \in DOMAIN d, IdxCols(d.cols)))]
+         ELSE [cat EXCEPT ![t].indexes = Append(@, Idx(d.name, "unique" \in DOMAIN d /\ d.unique, "c", "where" \in DOMAIN d, IdxCols(d.cols), IF "where_cols" \in DOMAIN d THEN d.where_cols ELSE <<>>))]
     [] d.stmt = "index_drop" -> [k \in DOMAIN cat |-> [cat[k] EXCEPT !.indexes = SelectSeq(@, LAMBDA x : x.name # d.name)]]
     [] d.stmt = "table_rename" -> LET t == TableIx(cat, d.from) IN [cat EXCEPT ![t].name = d.to]
     [] d.stmt = "table_drop" -> SelectSeq(cat, LAMBDA tb : ~\E i \in DOMAIN d.tables : d.tables[i] = tb.name)
